@@ -93,6 +93,7 @@ def serdeStep (s : DState) : List String → Option (DState × String)
       | "text" => DriverFacts.otherUnsafeMarkerImpls == 0 && textOk F (b ds) (b dy) (b ry)
       | "textgeneric" => DriverFacts.otherUnsafeMarkerImpls == 0 && textOk F (b ds) (b dy) (b ry)
       | "kindfree" => kindFreeOk F DriverFacts.nodeMarkersConstrainS (m == "sync") (b ds) (b dy)
+      | "iter" => iterOk F (b ds) (b dy)
       | _ => handleOk F (m == "sync") (b ds) (b dy)
     some (s, if ok then "accept" else "reject")
   | _ => none
